@@ -728,3 +728,63 @@ def _db_mutators(ctx, repo):
                        '%s() is called on %s, a database this function did not create: parsing / '
                        'set-up code modifies a database it was given' % (cn, unparse(r)),
                        construct=cons)
+
+
+
+def object_memos(ctx, rule, repo, modfilter):
+    """per-object memo dictionaries (self.X = {} in __init__, self.X[key] = value elsewhere): every
+    parameter the stored value is computed from reaches the key through one-to-one operations
+    only.  Returns the number of memo stores examined."""
+    n = 0
+    for mod in sorted(repo.modules.values(), key=lambda m_: m_.name):
+        if not modfilter(mod.name):
+            continue
+        for cls in [c for c in ast.walk(mod.tree) if isinstance(c, ast.ClassDef)]:
+            init = [f for f in cls.body if isinstance(f, ast.FunctionDef) and f.name == '__init__']
+            if not init:
+                continue
+            dicts = {x.targets[0].attr for x in ast.walk(init[0]) if isinstance(x, ast.Assign)
+                     and len(x.targets) == 1 and is_self_attr(x.targets[0]) and (
+                         (isinstance(x.value, ast.Dict) and not x.value.keys) or
+                         (isinstance(x.value, ast.Call) and call_name(x.value) == 'dict' and not x.value.args
+                          and not x.value.keywords))}
+            if not dicts:
+                continue
+            for f in [g for g in cls.body if isinstance(g, ast.FunctionDef) and g.name != '__init__']:
+                params = {a.arg for a in f.args.args[1:]} | {a.arg for a in f.args.kwonlyargs}
+                for st in iter_own(f):
+                    if not (isinstance(st, ast.Assign) and len(st.targets) == 1 and
+                            isinstance(st.targets[0], ast.Subscript) and is_self_attr(st.targets[0].value)
+                            and st.targets[0].value.attr in dicts):
+                        continue
+                    key = st.targets[0].slice
+                    reads = [x for x in ast.walk(f) if isinstance(x, (ast.Subscript, ast.Call)) and (
+                        (isinstance(x, ast.Subscript) and isinstance(x.ctx, ast.Load) and
+                         unparse(x.value) == unparse(st.targets[0].value)) or
+                        (isinstance(x, ast.Call) and call_name(x) == 'get' and call_recv(x) is not None and
+                         unparse(call_recv(x)) == unparse(st.targets[0].value)))]
+                    if not reads:
+                        continue            # a record, not a memo: nothing is answered from it here
+                    n += 1
+                    flows = _flows_into(f, key)
+                    vflows = _flows_into(f, st.value)
+                    val_params = vflows & params
+                    missing = sorted(val_params - flows)
+                    cons = '%s.%s: memo self.%s' % (cls.name, f.name, st.targets[0].value.attr)
+                    if missing:
+                        ctx.refuted(rule, mod, st, 'the value remembered in self.%s depends on %s but the key %s '
+                                    'does not: a later call with a different %s is answered with the value '
+                                    'remembered for an earlier one' % (st.targets[0].value.attr, missing,
+                                                                        short(key, 60), '/'.join(missing)),
+                                    construct=cons)
+                        continue
+                    lossy = _lossy_key_use(f, key, val_params & flows, flows)
+                    ctx.decide(rule, not lossy, mod, st,
+                               'memo key %s is a one-to-one function of %s' % (short(key, 60), sorted(val_params)),
+                               'the memo key %s is not a one-to-one function of %s: it enters the key through %s, '
+                               'which maps different values to the same key (all lambdas share one __name__), '
+                               'while the remembered value is computed from the value itself: a second object '
+                               'with the same key is answered with the first one\'s data'
+                               % (short(key, 60), lossy[0] if lossy else '', lossy[1] if lossy else ''),
+                               construct=cons)
+    return n
